@@ -43,6 +43,10 @@ def build(term, W, cache=None):
         return dict[build(term[1], W, cache), build(term[2], W, cache)]
     if k == "raw":
         return RAW[term[1]]
+    if k == "any":
+        import typing
+
+        return typing.Any
     if k == "Lit":
         import typing
 
@@ -106,6 +110,8 @@ def term_str(term):
         return f"dict[{term_str(term[1])}, {term_str(term[2])}]"
     if k == "raw":
         return term[1]
+    if k == "any":
+        return "Any"
     if k == "Lit":
         return "Literal[" + ", ".join(map(repr, term[1:])) + "]"
     if k == "tuple":
